@@ -53,6 +53,81 @@ CHECKS = {
         "Random bookmark/tag symbols (valid remote names per validate_remote_name) are exported with the real to_git_ref_name and parsed back with parse_git_ref, random git-valid ref names are parsed and exported again; both round trips must be identities and no two symbols may share a ref.",
         "Import direction restricted to ref names git/gix accept (gix::validate); uses the cfg-guarded re-export of the private functions.",
     ),
+    "C07": (
+        "runtime differential monitor: per-path reference merge over generated trees on a chaos store (seeded completion orders)",
+        "Real MergedTree::merge on 3/5/7-way merges of generated trees (files, executables, symlinks, nested directories, file<->directory replacements, planted equal terms, already-conflicted inputs) on a store whose backend delays every async read/write a seeded number of polls and reports concurrency 1/2/8; at every path with clean ancestry the result's denotation must equal an independent reference (counting rule, then content merge by the C04 reference, executable bit by counting), has_conflict() iff a path conflicts, survivor-tree identity, identical tree ids across 3 completion orders.",
+        "Paths below a file/directory clash and paths where non-directory terms cancel leaving only directories are not decided (both jj outcomes are path-wise merges of the leaves); trusts store round trips (C17) and ContentDiff (C03). One genuine defect recorded as known finding (non-idempotent resolve, debug assertion).",
+    ),
+    "C08": (
+        "runtime monitor: per-path rebase laws (denotation comparison) over generated commit graphs, away-and-back",
+        "Real rebase_commit / rebase_with_empty_behavior on generated DAGs with trees (new parents: root, single, merges, conflicted, variations of the old parents); per path: unchanged-by-commit paths take the new merged parents' value, paths the old and new merged parents agree on keep the commit's value; rebase onto current parents is the identity on tree ids and labels; disjoint away-and-back restores the tree (exactly for resolved trees, per-path denotation for conflicted).",
+        "Uses merge_commit_trees (monitored by C07) for the merged parents; paths below file/directory clashes skipped. A genuine defect found by this monitor was repaired (fix: rebase fast path).",
+    ),
+    "C09": (
+        "runtime invariant monitor: tree ids of the topmost commit and all descendants before/after squash, absorb and split",
+        "Library-level squash_commits, absorb (split_hunks_to_trees + absorb_hunks) and a split spelled with the calls cmd_split uses, on generated linear and merge stacks with descendants, side branches and a working-copy commit; tracked by change id: the topmost resulting commit, the source, every descendant and @ keep identical tree_ids, descendants stay visible, non-descendants of receivers keep their commit id.",
+        "Library level only (the CLI split/squash/absorb front-ends call these functions). Known finding: merge descendants above a side branch of a receiving commit are re-merged.",
+    ),
+    "C10": (
+        "runtime invariant monitor: view invariants after every committed operation and operation merge, own ancestry",
+        "Random sequences (commit creation, rewrite, abandon, rebase_descendants, bookmark edits incl. conflicted/absent, edit/check_out in 1-3 workspaces, remove_head, concurrent transactions merged by merge_operations and load_at_head); after every commit, merge and fresh reload from disk: heads non-empty and an antichain under the harness' own ancestry, root only alone, every bookmark add and working-copy commit is an ancestor-or-equal of a head.",
+        "Ancestry comes from the harness' Dag, never from jj's index. Concurrent workloads avoid cross-reparenting (recorded under C13).",
+    ),
+    "C11": (
+        "runtime invariant monitor: orphan / reference / change-id invariants after rebase_descendants with recorded intents",
+        "Generated DAGs with bookmarks and workspaces, random rewrite/abandon/divergent/chain records, rebase_descendants_with_options under every EmptyBehavior, immutable sets, delete_abandoned_bookmarks and simplify_ancestor_merge; oracle: no visible commit descends from a rewritten/abandoned commit (with the divergent and immutable exceptions), rebased commits keep change id/description/author and record the predecessor, bookmarks and working copies follow (rewrite -> final rewrite, abandon -> parents or deletion, new wc commit on the parents), shared change ids only with a recorded divergence.",
+        "Conflicted bookmarks get the weaker 'no add left on a replaced commit' clause (exact merging is C12). One defect repaired (fix: ordering of multi-hop rewrites), one recorded as known finding (panic editing the root).",
+    ),
+    "C12": (
+        "runtime differential monitor: 3-way ref-target specification + safe-pair decomposition, own ancestry",
+        "Real merge_ref_targets on random (left, base, right) targets (absent, normal, conflicted with absent terms, equal pairs, ancestor chains) over generated DAGs against the mutable and readonly index; result ids are a subset of input ids; full specification for non-conflicted inputs; for conflicted inputs the dropped terms must decompose into (+a,-r) pairs with r absent or an ancestor of a and a below a remaining add.",
+        "Ancestry from the harness' Dag.",
+    ),
+    "C13": (
+        "runtime history monitor: per-object no-loss oracle from recorded intents, every reconciliation order",
+        "2-3 concurrent transactions (also criss-cross) with random edits are committed from the same operation and reconciled by merge_operations in every permutation and by load_at_head; per object, from each side's own intent: untouched commits stay, hidden stays hidden, created commits visible as themselves or a same-change successor, bookmarks/tags/workspaces take the changing side's value (following the other side's rewrite/abandon in the decidable cases), identical changes kept, different changes conflict per the C12 reference.",
+        "Rewrite-interaction clauses are enforced only in the cases the engine can decide soundly (others counted as skipped). Several genuine defects recorded as known findings (order-dependent divergent rewrites, cross-reparenting panic, same-millisecond duplicate commit), one repaired.",
+    ),
+    "C14": (
+        "runtime monitor under controlled schedules: hook-point scheduler (exhaustive DFS for 2 actors, seeded walks for 3, kills) + directory-listing oracle",
+        "Actor threads with their own RepoLoader on one repository (publishers at head / from a stale operation, reconcilers, readers) are parked at the cfg-guarded hook points before every op-head read/add/remove/lock step; a controller enumerates interleavings (DFS, optionally one kill at any parked point; random walks for 3 actors), with working flock and with locking disabled; after every step the real heads/ directory must be non-empty and every operation whose head add completed must be an ancestor of a listed head; at quiescence one load_at_head leaves a single head descending from all of them.",
+        "Interleavings at hook granularity (directory read treated as atomic, as in the property); kill is emulated by unwinding the actor thread (locks released as the OS would); quick caps each DFS job.",
+    ),
+    "C15": (
+        "fault enumeration: abort() at every reached durable-write hook point of representative commands, recovery oracle",
+        "15 command scenarios on the git backend (describe/new/commit with unsnapshotted edits, squash, rebase, abandon, bookmark move, undo, op restore, edit, conflicted checkout, workspace add, workspace update-stale, sparse set, restore); counting pass with the hook trace, then one run per reached write-side hook point killed there from a byte-identical restored pre-state with pinned timestamps/randomness; oracle: repository opens, every earlier operation still in the log, op heads are states the uninterrupted run passes through, every op/view/commit/tree reachable and every op-store file decodes, git fsck, jj status/log succeed (after workspace update-stale if needed), every pre-command file content is on disk or in some operation's working-copy commit.",
+        "Process kill, not power loss; hook layer only (no crash inside gix or the git subprocess between hook points); quick samples one point per (hook label x file kind) class per scenario, thorough crashes at every point.",
+    ),
+    "C16": (
+        "runtime monitor: store round trip + independent decoder of the hashed encoding (injectivity by decodability)",
+        "Random views built through the View setters and operations with random metadata go through a fresh SimpleOpStore (round trip, id = blake2b of the recorded ContentHash bytes, id stable across rebuilds and a second process); an independent decoder written from the documented encoding reconstructs the value from the hashed bytes, near-miss variants must differ in encoding and id, and a global encoding->value map detects collisions.",
+        "Views limited to what the public setters can produce; ids are 64 bytes.",
+    ),
+    "C17": (
+        "runtime monitor: fresh-store read == write result, field by field, Git and simple backends",
+        "Random commits (1-3 parents, conflicted root trees with labels, shared change ids, unicode/empty names, negative/sub-second/far-future timestamps, tz -1440..1440), trees and blobs are written and read back on a fresh Store on the same directory; each field has its own clause; distinct commits must get distinct ids; the in-memory cache must equal the write result.",
+        "Names/emails without surrounding whitespace (outside the stated quantifier; the Git backend trims them). A genuine defect found by this monitor was repaired (fix: author timestamp).",
+    ),
+    "C18": (
+        "runtime differential monitor: DAG model vs commit index in every storage form",
+        "Generated DAGs (octopus merges, shared change ids) added over 4-25 transactions of varying sizes incl. concurrent ones; has_id, is_ancestor, common_ancestors, heads, all_heads_for_gc, generation numbers and change-id lookups are compared with the harness' Dag on the mutable index, the readonly index, each concurrent side, merge_index results, after load_at_head, after a fresh load from disk and after reindexing from scratch; segment-stack depths recorded.",
+        "Results compared as sets; hidden change-id targets only need to be a subset (the trait allows omissions).",
+    ),
+    "C19": (
+        "runtime differential monitor: reference set evaluator over the DAG model vs revset engine",
+        "Random expression trees (ancestors/descendants with generation ranges, ranges, heads/roots, fork/merge points, reachable/connected, latest, first-parent ancestry, coalesce, present, at_operation, symbols and patterns, set operators) over generated DAGs with hidden commits, bookmarks and tags, built through the API and through text; oracle: set equality with a plain-set evaluator, no duplicates, order is the restriction of the global index order with children before parents, optimized == unoptimized, text == API.",
+        "latest() ties at the cut-off are excluded from the set clause (no documented tie-break); functions with content filters are not generated.",
+    ),
+    "C20": (
+        "runtime monitor: brute-force prefix scan oracle over mined commit ids and planted change ids",
+        "Commit ids are mined (6000 cheap commits per case) for shared prefixes, change ids are planted with shared prefixes of 1..31 hex digits, spread over several index segments with hidden commits; for every sampled id the reported shortest length must be unique, resolvable back and minimal per a brute-force scan, also with odd lengths and under IdPrefixContext::disambiguate_within with random revsets.",
+        "Commit ids cannot be chosen: shared commit-id prefixes reach 5-7 digits only.",
+    ),
+    "C39": (
+        "runtime monitor: edge typing and closure oracle over the graph iterator for random sparse revsets",
+        "Random sparse revsets over generated DAGs go through iter_graph (with and without transitive-edge skipping), the stream variant, TopoGroupedGraph and reverse_graph; nodes are the revset in global order before their ancestors; direct edge => shown parent; indirect => shown ancestor reachable only through unshown commits; missing => target not shown; the closure of edges equals ancestry among shown nodes and is unchanged by transitive-edge skipping.",
+        "A direct parent labelled 'indirect' would be accepted (the statement does not forbid it).",
+    ),
 }
 
 LEVEL = {"C15": "fault_enumeration"}
